@@ -234,7 +234,9 @@ class ExprMixin:
             if z3.is_string_value(a.t) and z3.is_int_value(b.t) and 0 <= b.t.as_long() <= 64:
                 n_ = b.t.as_long()        # literal * small literal: exact
                 return [(st, V(a.s, z3.StringVal("")) if n_ == 0 else V(a.s, a.t if n_ == 1 else z3.Concat(*([a.t] * n_))))]
-            return [(st, a.s.fresh("strmul"))]
+            # symbolic repetition: a deterministic (uninterpreted) function of string and count - the spec side is Rep(s, n)
+            from .calls import ufunc as _cu
+            return [(st, V(a.s, _cu("StrRep_" + a.s.name, a.s, INT, a.s)(a.t, b.t)))]
         if isinstance(a.s, SetS):
             bb = self.coerce(b, a.s)
             if bb is not None:
